@@ -520,7 +520,7 @@ def shrink_all(runner, fails):
 
 TIERS = {
     "quick": dict(H=3, wide=[], sim=None, floor=300, gc_every=10, design=False),
-    "thorough": dict(H=4, wide=[1, 2, 3, 5, 6, 10, 14], sim=(1200, 9, 20), floor=5000, gc_every=10, design=True),
+    "thorough": dict(H=4, wide=[1, 5, 14], sim=(1200, 9, 20), floor=5000, gc_every=10, design=True),
 }
 BASE_ACTIONS = ["GetHit", "GetMiss", "SetHit", "SetMiss", "NameHit", "NameMiss", "Define", "Delete", "SetProto", "PreventExt",
                 "Freeze", "Warm"]
@@ -695,6 +695,9 @@ class Tally:
             if int(key) % 9973 == 3:
                 ck.sample({"history": sig_text(ops, uq, glob), "reference_trace": exp[1:], "ic_counters": counters[1:]})
         self.total += len(recs)
+        if self.total // 20000 != (self.total - len(recs)) // 20000:
+            vlib.log(f"[C06] ... {self.total} histories replayed ({self.runner.replays} runs), "
+                     f"{sum(k[0] for k in self.known.values())} known, {self.n_unexplained} unexplained")
 
 
 def stream_tlc(cfg, tally, what, chunk_size=4000, **kw):
